@@ -11,7 +11,7 @@ from abc import ABCMeta, abstractmethod
 from types import MappingProxyType
 from typing import Any
 
-from elementpath.helpers import LazyPattern
+from elementpath.helpers import LazyPattern, collapse_white_spaces
 from elementpath.namespaces import XSD_NAMESPACE
 
 ###
@@ -156,7 +156,7 @@ class AnyAtomicType(AnySimpleType, metaclass=AtomicTypeMeta):
         if isinstance(value, cls):
             return
         elif isinstance(value, str):
-            if cls.pattern.match(value) is None:
+            if cls.pattern.match(collapse_white_spaces(value)) is None:
                 raise cls._invalid_value(value)
         else:
             raise cls._invalid_type(value)
